@@ -406,3 +406,23 @@ def tla_val(x):
 def read_ndjson(path):
     with open(path) as f:
         return [json.loads(ln) for ln in f if ln.strip()]
+
+
+def tlaps_proof(wd, module, needs, theorem):
+    """Runs the TLA+ proof system on spec/<module>.tla (copied with the modules it extends into a scratch directory).  A statement about
+    the specification alone: failure is a tool error, never a violation."""
+    import shutil
+    pd = os.path.join(wd, "tlaps_" + module)
+    shutil.rmtree(pd, ignore_errors=True)
+    os.makedirs(pd)
+    for m in list(needs) + [module]:
+        shutil.copy(os.path.join(SPEC, m + ".tla"), pd)
+    try:
+        p = subprocess.run(["tlapm", "--nofp", "--threads", "4", module + ".tla"], cwd=pd, capture_output=True, text=True, timeout=900)
+    except (subprocess.TimeoutExpired, FileNotFoundError) as e:
+        raise ToolError("tlapm did not finish: %s" % e)
+    m = re.search(r"All (\d+) obligations proved", p.stdout + p.stderr)
+    if not m:
+        sys.stderr.write((p.stdout + p.stderr)[-2000:])
+        raise ToolError("%s.tla: unproved obligations" % module)
+    return {"module": module, "theorem": theorem, "obligations_proved": int(m.group(1)), "engine": "tlapm (SMT, PTL)"}
